@@ -40,6 +40,9 @@ def routes_for(z):
     r.append(("name", lambda: Element[name]))
     r.append(("Name", lambda: Element[name.capitalize()]))
     r.append(("NAME", lambda: Element[name.upper()]))
+    r.append(("padded-name", lambda: Element["  %s " % name]))
+    r.append(("padded-NAME-newline", lambda: Element["%s\n" % name.upper()]))
+    r.append(("from_string-padded-Name-tab", lambda: Element.from_string("\t%s\t" % name.capitalize())))
     for d in DIGITS:
         for suf in SUFFIXES:
             lab = sym + d + suf
